@@ -536,4 +536,17 @@ theorem maxPriority_foldl (items : List Int) (acc : Int) :
         · right; left; omega
       · right; right; exact h3
 
+/-! ### allocated entries do not count for the priority of an application -/
+
+theorem outstanding_append (a b : List (Int × Bool)) : outstanding (a ++ b) = outstanding a ++ outstanding b := by
+  simp [outstanding]
+
+theorem outstanding_allocated (p : Int) : outstanding [(p, true)] = [] := by
+  simp [outstanding]
+
+theorem askMaxPriority_ignores_allocated (e₁ e₂ : List (Int × Bool)) (p : Int) :
+    askMaxPriority (e₁ ++ [(p, true)] ++ e₂) = askMaxPriority (e₁ ++ e₂) := by
+  unfold askMaxPriority
+  rw [outstanding_append, outstanding_append, outstanding_allocated, outstanding_append]; simp
+
 end Yk
